@@ -84,10 +84,17 @@ class Proxy(object):
 
 
 class Reopenable(object):
-    """A log file that can be re-opened (log rotation): every attribute is looked up on the file that is current."""
+    """A log file that can be re-opened (log rotation): write() and flush() go to the file that is current; the other
+    attributes are looked up there."""
 
     def __init__(self, current):
         self._current = current
+
+    def write(self, data):
+        return self._current.write(data)
+
+    def flush(self):
+        return self._current.flush()
 
     def __getattr__(self, name):
         if name.startswith("__"):
